@@ -1,5 +1,5 @@
 (* C06 — Bit-fields partition their storage unit exactly, in endian-defined order. *)
-From VF Require Import Model.Writer Proofs.BitsCorrect Proofs.BitRun Gen.GeneratedOk.
+From VF Require Import Model.Writer Proofs.BitsCorrect Proofs.BitRun Proofs.BitStruct Proofs.CodecCorrect Proofs.RoundTrip Gen.GeneratedOk.
 Open Scope list_scope. Open Scope Z_scope.
 
 (* One BitBuffer.read step inside a storage unit (same storage type, enough bits left):
@@ -52,6 +52,48 @@ Theorem bit_field_run_big : forall e start p al a rd, String.eqb e "<" = false -
       (rev (as_values (named run (be_read_seq u (sz * 8) (map snd run)))) ++ vals) sizes (rev (named run (be_read_seq u (sz * 8) (map snd run))) ++ lctx).
 Proof. exact bit_unit_be. Qed.
 
+(* A structure whose members are one run of bit fields over an unsigned storage unit of k bytes, through the REAL structure writer and
+   reader of the model (layout, BitBuffer.write with its flush, one scalar write; one scalar read, BitBuffer.read): whatever values that fit
+   their widths are dumped, parsing the dump - anywhere in a stream - gives exactly those values back and consumes exactly the unit.
+   Little endian and big endian; the run may or may not fill the unit. *)
+Theorem bit_field_structure_round_trip_little : forall c k pk al nm n w run vals sz vs wpos bs fuel pre rest ctx,
+  String.eqb (c_endian c) "<" = true -> endian_ok (c_endian c) -> (0 < k)%nat ->
+  looked_up vals ((n, w) :: run) vs -> widths_ok (w :: map snd run) -> fits_widths (w :: map snd run) vs ->
+  w + total (map snd run) <= Z.of_nat k * 8 ->
+  write_ty c (TStruct nm (run_fields (PInt k false pk) al ((n, w) :: run)) false) (VStruct vals sz) wpos = Ok bs ->
+  read_ty c fuel (TStruct nm (run_fields (PInt k false pk) al ((n, w) :: run)) false) (pre ++ bs ++ rest) (zlen pre) ctx
+  = Ok (VStruct (as_values (named ((n, w) :: run) vs)) [], zlen pre + zlen bs).
+Proof. exact bit_struct_round_trip. Qed.
+Theorem bit_field_structure_round_trip_big : forall c k pk al nm n w run vals sz vs wpos bs fuel pre rest ctx,
+  String.eqb (c_endian c) "<" = false -> endian_ok (c_endian c) -> (0 < k)%nat ->
+  looked_up vals ((n, w) :: run) vs -> widths_ok (w :: map snd run) -> fits_widths (w :: map snd run) vs ->
+  w + total (map snd run) <= Z.of_nat k * 8 ->
+  write_ty c (TStruct nm (run_fields (PInt k false pk) al ((n, w) :: run)) false) (VStruct vals sz) wpos = Ok bs ->
+  read_ty c fuel (TStruct nm (run_fields (PInt k false pk) al ((n, w) :: run)) false) (pre ++ bs ++ rest) (zlen pre) ctx
+  = Ok (VStruct (as_values (named ((n, w) :: run) vs)) [], zlen pre + zlen bs).
+Proof. exact bit_struct_round_trip_be. Qed.
+(* its layout: the first field opens the unit at offset 0, the others carry no offset, the size is the unit *)
+Theorem bit_field_structure_layout : forall c p al ssz, prim_size_z p = Some ssz -> forall n w run,
+  widths_ok (w :: map snd run) -> w + total (map snd run) <= ssz * 8 ->
+  layout_struct c false (run_fields p al ((n, w) :: run))
+  = Ok (mkLay (Some 0 :: nones run) (Some ssz) (fold_left (fun acc _ => Z.max acc (if al =? 0 then 1 else al)) ((n, w) :: run) 0)).
+Proof. exact layout_run. Qed.
+(* its dump: the packed integer (first field lowest in little endian, highest in big endian), written once through the storage type *)
+Theorem bit_field_structure_dump_little : forall c p al ssz, prim_size_z p = Some ssz -> String.eqb (c_endian c) "<" = true ->
+  forall nm n w run vals sz vs wpos, 0 < ssz -> looked_up vals ((n, w) :: run) vs ->
+  widths_ok (w :: map snd run) -> fits_widths (w :: map snd run) vs -> w + total (map snd run) <= ssz * 8 ->
+  write_ty c (TStruct nm (run_fields p al ((n, w) :: run)) false) (VStruct vals sz) wpos
+  = wb_flush c (mkWB (Some (p, al)) (le_pack (w :: map snd run) vs) 0).
+Proof. exact write_bit_struct. Qed.
+Theorem bit_field_structure_dump_big : forall c p al ssz, prim_size_z p = Some ssz -> String.eqb (c_endian c) "<" = false ->
+  forall nm n w run vals sz vs wpos, 0 < ssz -> looked_up vals ((n, w) :: run) vs ->
+  widths_ok (w :: map snd run) -> fits_widths (w :: map snd run) vs -> w + total (map snd run) <= ssz * 8 ->
+  write_ty c (TStruct nm (run_fields p al ((n, w) :: run)) false) (VStruct vals sz) wpos
+  = wb_flush c (mkWB (Some (p, al)) (be_pack (ssz * 8) (w :: map snd run) vs) 0).
+Proof. exact write_bit_struct_be. Qed.
+
+Print Assumptions bit_field_structure_round_trip_little.
+Print Assumptions bit_field_structure_round_trip_big.
 Print Assumptions bit_field_run_little.
 Print Assumptions bit_field_run_big.
 Print Assumptions read_step_little.
